@@ -100,4 +100,118 @@ theorem stop_unknown_or_same (search : Nat → Option Ans) (j : Nat) (fuel k : N
 theorem stop_before_start (search : Nat → Option Ans) (fuel : Nat) : solveLoop search (some 0) fuel 0 = .unknown := by
   cases fuel <;> simp [solveLoop]
 
+def Sys.Inv (s : Sys) : Prop := s.pool.Inv ∧ s.owner.map Prod.fst = s.pool.inUse
+
+theorem alloc_inUse (p : Pool) : p.alloc.1.inUse = p.alloc.2 :: p.inUse := by
+  unfold Pool.alloc; cases p.free <;> rfl
+
+theorem map_fst_erase (l : List (Nat × Nat)) (c t : Nat) (hn : (l.map Prod.fst).Nodup) (hm : (c, t) ∈ l) :
+    (l.erase (c, t)).map Prod.fst = (l.map Prod.fst).erase c := by
+  induction l with
+  | nil => simp at hm
+  | cons x r ih =>
+    obtain ⟨a, b⟩ := x
+    simp only [List.map_cons, List.nodup_cons] at hn
+    by_cases he : (a, b) = (c, t)
+    · obtain ⟨rfl, rfl⟩ := Prod.mk.inj he
+      simp
+    · have hr : (c, t) ∈ r := by
+        rcases List.mem_cons.mp hm with h | h
+        · exact absurd h.symm he
+        · exact h
+      have hac : a ≠ c := by
+        intro e; subst e
+        exact hn.1 (List.mem_map.mpr ⟨(a, t), hr, rfl⟩)
+      rw [List.erase_cons_tail (by simpa using he)]
+      simp only [List.map_cons]
+      rw [List.erase_cons_tail (by simpa using hac)]
+      rw [ih hn.2 hr]
+
+theorem sys_step_inv (s : Sys) (op : POp) (h : s.Inv) : (s.step op).Inv := by
+  cases op with
+  | alloc t =>
+    refine ⟨alloc_inv _ h.1, ?_⟩
+    simp only [Sys.step, List.map_cons, alloc_inUse, h.2]
+  | release t c =>
+    simp only [Sys.step]
+    split
+    · rename_i hm
+      have hc : c ∈ s.pool.inUse := by rw [← h.2]; exact List.mem_map.mpr ⟨(c, t), hm, rfl⟩
+      refine ⟨release_inv _ _ h.1 hc, ?_⟩
+      have hn : (s.owner.map Prod.fst).Nodup := by
+        rw [h.2]; exact (List.nodup_append.mp h.1.1).2.1
+      simp only [Pool.release]
+      rw [map_fst_erase _ _ _ hn hm, h.2]
+    · exact h
+
+theorem sys_inv_init : ({} : Sys).Inv := ⟨inv_empty, rfl⟩
+
+/-- every state reached by any interleaving of the threads' operations keeps the invariant -/
+theorem sys_run_inv (s : Sys) (ops : List POp) (h : s.Inv) : (s.run ops).Inv := by
+  induction ops generalizing s with
+  | nil => exact h
+  | cons op r ih => exact ih _ (sys_step_inv s op h)
+
+theorem snd_eq_of_nodup_fst (l : List (Nat × Nat)) (hn : (l.map Prod.fst).Nodup) (c t1 t2 : Nat)
+    (h1 : (c, t1) ∈ l) (h2 : (c, t2) ∈ l) : t1 = t2 := by
+  induction l with
+  | nil => simp at h1
+  | cons x r ih =>
+    simp only [List.map_cons, List.nodup_cons] at hn
+    rcases List.mem_cons.mp h1 with e1 | m1 <;> rcases List.mem_cons.mp h2 with e2 | m2
+    · rw [← e2] at e1; exact (Prod.mk.inj e1).2
+    · exact absurd (List.mem_map.mpr ⟨(c, t2), m2, by rw [← e1]⟩) hn.1
+    · exact absurd (List.mem_map.mpr ⟨(c, t1), m1, by rw [← e2]⟩) hn.1
+    · exact ih hn.2 m1 m2
+
+/-- in every reachable state a cell is held by at most one thread -/
+theorem sys_exclusive (s : Sys) (h : s.Inv) (c t1 t2 : Nat) (h1 : (c, t1) ∈ s.owner) (h2 : (c, t2) ∈ s.owner) : t1 = t2 := by
+  have hn : (s.owner.map Prod.fst).Nodup := by
+    rw [h.2]; exact (List.nodup_append.mp h.1.1).2.1
+  exact snd_eq_of_nodup_fst _ hn c t1 t2 h1 h2
+
+/-- the cell an `alloc` hands to a thread is held by no thread at that moment -/
+theorem sys_alloc_unowned (s : Sys) (h : s.Inv) (t : Nat) : (s.pool.alloc.2, t) ∉ s.owner := by
+  intro hm
+  have : s.pool.alloc.2 ∈ s.pool.inUse := by rw [← h.2]; exact List.mem_map.mpr ⟨_, hm, rfl⟩
+  exact alloc_fresh _ h.1 this
+
+/-! ## more about the stop loop -/
+
+/-- a definitive answer of the stopped run is the answer of the undisturbed run -/
+theorem stop_definitive_same (search : Nat → Option Ans) (j fuel k : Nat) (a : Ans) (ha : a ≠ .unknown)
+    (h : solveLoop search (some j) fuel k = a) : solveLoop search none fuel k = a := by
+  rcases stop_unknown_or_same search j fuel k with hu | hs
+  · rw [hu] at h; exact absurd h.symm ha
+  · rw [← hs]; exact h
+
+/-- a request seen from round `j` on gives `unknown` when no round before `j` decides -/
+theorem stop_undecided_unknown (search : Nat → Option Ans) (j fuel k : Nat)
+    (hund : ∀ i, k ≤ i → i < j → search i = none) : solveLoop search (some j) fuel k = .unknown := by
+  induction fuel generalizing k with
+  | zero => rfl
+  | succ n ih =>
+    simp only [solveLoop]
+    by_cases hjk : j ≤ k
+    · simp [hjk]
+    · simp only [hjk, decide_false, Bool.false_eq_true, if_false]
+      rw [hund k (Nat.le_refl k) (by omega)]
+      exact ih (k + 1) (fun i hi hij => hund i (by omega) hij)
+
+/-- a later request disturbs no more than an earlier one: once the run with a request at `j` is definitive, so is the
+    run with a request at any `j' ≥ j`, with the same answer -/
+theorem stop_later_same (search : Nat → Option Ans) (j j' fuel k : Nat) (hjj : j ≤ j') (a : Ans) (ha : a ≠ .unknown)
+    (h : solveLoop search (some j) fuel k = a) : solveLoop search (some j') fuel k = a := by
+  induction fuel generalizing k with
+  | zero => simp [solveLoop] at h; exact absurd h.symm ha
+  | succ n ih =>
+    simp only [solveLoop] at h ⊢
+    by_cases hjk : j ≤ k
+    · simp [hjk] at h; exact absurd h.symm ha
+    · have hjk' : ¬ j' ≤ k := by omega
+      simp only [hjk, hjk', decide_false, Bool.false_eq_true, if_false] at h ⊢
+      cases hs : search k with
+      | some b => rw [hs] at h; exact h
+      | none => rw [hs] at h; exact ih (k + 1) h
+
 end Osmt.Conc
